@@ -503,7 +503,7 @@ class Run:
             shapes = slides[sidx].shapes
             if kind == "grp":
                 shapes = shapes.add_group_shape().shapes
-            wh = [Emu(op[k]) if op.get(k) else None for k in ("w", "h")]
+            wh = [Emu(op[k]) if op.get(k) is not None else None for k in ("w", "h")]
             sh = shapes.add_picture(src, pos[0], pos[1], wh[0], wh[1])
             acc.hit("group.add_picture" if kind == "grp" else "add_picture:" + ("path" if op["via"]["how"].startswith("path") else "stream"))
         elif kind == "ph":
@@ -538,7 +538,7 @@ class Run:
         if self.reopened:
             acc.hit("reopen-continue")
         self.added.setdefault(self.images[i], i)
-        exp = {"slide": sidx, "id": sh.shape_id, "img": i, "kind": kind, "w": op.get("w") or None, "h": op.get("h") or None}
+        exp = {"slide": sidx, "id": sh.shape_id, "img": i, "kind": kind, "w": (op.get("w") or 9) if kind == "movie" else op.get("w"), "h": (op.get("h") or 9) if kind == "movie" else op.get("h")}
         self.shapes.append(exp)
         self.check_image_object(sh, exp, "blob-differs-at-add")
         return prs
@@ -701,7 +701,7 @@ def gen_history(i):
         used.append(k)
         op = {"op": kind, "img": k, "via": via(k), "slide": rnd.randrange(4), "x": rnd.choice([0, rnd.randint(0, 9000000)]), "y": rnd.randint(0, 6000000)}
         if kind in ("pic", "grp", "movie"):
-            dim = lambda: rnd.choice([1, 7, 12700, 914400, rnd.randint(1, 12000000), rnd.randint(1, 12000000)])  # noqa: E731
+            dim = lambda: rnd.choice([1, 7, 12700, 914400, rnd.randint(1, 12000000), rnd.randint(1, 12000000), 0])  # noqa: E731  (0 is a length too)
             mode = "both" if kind == "movie" else rnd.choice(["none", "none", "w", "h", "both"])
             op["w"] = dim() if mode in ("w", "both") else None
             op["h"] = dim() if mode in ("h", "both") else None
